@@ -524,7 +524,13 @@ func (sr *syncRun) feedNodes() bool {
 	if sr.sp.BadPM > 0 && r.tape.Chance(sr.sp.BadPM, 1000) {
 		// wrong data first: a corrupted node, an unsolicited valid node of another height, garbage
 		var bad [][]byte
-		switch r.tape.Choose(3) {
+		switch r.tape.Choose(4) {
+		case 3:
+			// a serialised hash node that names one of the requested hashes: it "is" the requested node by hash,
+			// but restores nothing; the request must stay open for the real node
+			h := unk[r.tape.Choose(len(unk))]
+			bad = [][]byte{append([]byte{0x03}, h.BytesBE()...)}
+			r.out.Faults["mpt_node_hashnode_of_requested"]++
 		case 0:
 			c := append([]byte{}, batch[0]...)
 			c[r.tape.Choose(len(c))] ^= 0x20
